@@ -496,7 +496,7 @@ def run(chk: framework.Check):
             chk.violation(f"correspondence corr:C15:{op} broken (theorems C15_* no longer tied to the code): impl={ri} model={rm} [{lab}]",
                           case, found_input=False)
     chk.extra["rule"] = ("distinct (S, ordered union, probe) triples on applicable unions; S from {str,bool,int,float,NoneType,bytes,"
-                         "MyStr,MyInt}; unions of 2-5 members over classes, literals (look-alike clusters 45%), NewTypes, 0-2 spill-over "
+                         "MyStr,MyInt}; unions of 2-5 members over classes, literals (look-alike clusters 45%%), NewTypes, 0-2 spill-over "
                          "members; every member order on a fresh converter; fixed battery of %d probes" % len(PROBES))
     chk.extra["probe_battery"] = [repr(v) + ":" + v.__class__.__name__ for v in PROBES]
     if chk.tier != "quick":
